@@ -69,8 +69,8 @@ FAMILIES = {
     'OrderedDict': (lambda k, v: collections.OrderedDict[k, v], ['SpyOrderedDict'], True),
     'Counter': (lambda k: collections.Counter[k], ['SpyCounter'], True),
 }
-ITEM_HINTS = ['int', 'str', 'optint', 'list_int', 'union']
-HASHABLE_ITEM_HINTS = ['int', 'str', 'optint', 'union']
+ITEM_HINTS = ['int', 'str', 'optint', 'list_int', 'union', 'any', 'object']
+HASHABLE_ITEM_HINTS = ['int', 'str', 'optint', 'union', 'any']
 
 
 def generate(rng, run, tier):
@@ -85,6 +85,11 @@ def generate(rng, run, tier):
     # the container may also sit *inside* the rejected object while the culprit is elsewhere: the explanation path then walks
     # past a conforming container of any size (tuple[H, str] with a bad second item; Annotated[H, Is[always false]])
     wrap = rng.choice([None, None, None, 'tuple_bad', 'annot_fail', 'tuple_bad_first'])
+    if item in ('any', 'object'):
+        # an ignorable item hint (dict[str, Any], list[object]): nothing inside can violate it, the container only ever conforms;
+        # interesting when the explanation path walks past it on its way to a culprit elsewhere
+        content = 'good'
+        wrap = wrap or rng.choice(['tuple_bad', 'annot_fail', 'tuple_bad_first'])
     if wrap:
         content = 'good'
     return {'fam': fam, 'kind': kind, 'item': item, 'content': content, 'conf': conf, 'wrap': wrap,
@@ -94,11 +99,11 @@ def generate(rng, run, tier):
 
 def _item_hint(name):
     return {'int': int, 'str': str, 'optint': typing.Optional[int], 'list_int': list[int],
-            'union': typing.Union[int, bytes]}[name]
+            'union': typing.Union[int, bytes], 'any': typing.Any, 'object': object}[name]
 
 
 def _good_item(name, j, inner):
-    if name == 'int':
+    if name in ('int', 'any', 'object'):
         return j
     if name == 'str':
         return 's%d' % j
